@@ -23,7 +23,7 @@ open Rie.Sys
 theorem C10_second_refused_inert (s : State) (c size : Nat) (h : String)
     (hi : s.inited = true) (hr : s.resv.isSome = true) :
     applyOp s (.invoke c size h) = s.emit s!"caller{c} done err=AlreadyReserved body=empty" := by
-  simp [applyOp, hi, hr]
+  simp [applyOp, startServerInit, hi, hr]
 
 /-- … hence nothing the in-flight invocation or later ones depend on changes. -/
 theorem C10_second_refused_core (s : State) (c size : Nat) (h : String)
@@ -42,7 +42,7 @@ theorem C10_admitted_only_when_free (s : State) (c size : Nat) (h : String) (hi 
   | some r =>
     exfalso; apply hne
     rw [C10_second_refused_inert s c size h hi (by simp [hr])]; simp [hr]
-  | none => simp [applyOp, hi, hr]
+  | none => simp [applyOp, startServerInit, hi, hr]
 
 /-- A refused caller cannot crash the emulator (the nil reservation is never dereferenced). -/
 theorem C10_refusal_no_crash (s : State) (c size : Nat) (h : String)
